@@ -310,7 +310,7 @@ def family_objlist(tier, seed, n=None):
     return out
 
 
-def family_objlist_randsz(tier, seed, n=None):
+def family_objlist_randsz(tier, seed, n=None, cb_all=False, tag="L/objrs"):
     """random-size lists of OBJECTS: the user populates the list, the solver chooses how many elements it exposes.  Calls pin
     the size to values that shrink and grow again; foreach bodies (element and index forms), the elements' own blocks and
     the four views of the list are judged on the exposed prefix after every call"""
@@ -320,7 +320,7 @@ def family_objlist_randsz(tier, seed, n=None):
         core = t < n // 2
         rnd = random.Random((434 if core else 4400 + seed) * 100003 + t)
         nobj = rnd.choice([2, 3, 4])
-        sub = {"base": "", "cb": t % 2 == 0,
+        sub = {"base": "", "cb": cb_all or t % 2 == 0,
                "fields": [fld("x", 3, False), fld("y", 2, False), fld("z", 2, False, rand=False, init=rnd.randrange(4))],
                "blocks": [{"name": "sc", "dynamic": False, "body": [E(B("ne", F("y"), F("z")))]}]}
         tiny = t % 3 == 2
@@ -340,7 +340,7 @@ def family_objlist_randsz(tier, seed, n=None):
                 FE("ol", "e", [E(B(rnd.choice(["le", "ne", "ge"]), IT("e", "y"), F("a")))])]
         if t % 3 == 1:
             body.append(E(B(rnd.choice(["le", "ge", "ne"]), {"k": "size", "l": "ol"}, F("a"))))
-        top = {"base": "", "cb": t % 2 == 0,
+        top = {"base": "", "cb": cb_all or t % 2 == 0,
                "fields": [fld("a", 2, False), {"name": "ol", "kind": "objlist", "cls": "Sub", "n": nobj, "rand": True, "randsz": True}],
                "blocks": [{"name": "c1", "dynamic": False, "body": body}]}
         world = {"classes": {"Sub": sub, "Top": top}, "population": [{"id": "o1", "cls": "Top"}]}
@@ -349,6 +349,9 @@ def family_objlist_randsz(tier, seed, n=None):
         rnd.shuffle(wants)
         for k_, want in enumerate([nobj] + wants):
             ops.append({"op": "call", "call": wcall([E(B("eq", {"k": "size", "l": "ol"}, lit(want)))])})
+            if cb_all and not tiny and k_ % 2 == 1:
+                # the pre_randomize hook of an ELEMENT assigns the non-random field its own block reads: the solver sees it
+                ops[-1]["cb_script"] = [{"ph": "pre", "o": "o1.ol[0]", "assign": "o1.ol[0].z", "v": bits(rnd.randrange(4), 2)}]
             if k_ % 3 == 2:
                 ops.append({"op": "call", "call": mcall()})
             if k_ == 4 and not tiny:
@@ -358,7 +361,7 @@ def family_objlist_randsz(tier, seed, n=None):
         ops.append({"op": "call", "call": wcall([E(B("gt", {"k": "size", "l": "ol"}, lit(nobj - 1)))])})
         ops.append({"op": "call", "call": wcall([E(B("eq", {"k": "size", "l": "ol"}, lit(nobj + 1)))])})     # more than populated: fails
         ops.append({"op": "call", "call": mcall()})
-        out.append({"id": "L/objrs/%s/%d" % ("core" if core else "s%d" % seed, t), "world": world, "ops": ops, "tags": []})
+        out.append({"id": "%s/%s/%d" % (tag, "core" if core else "s%d" % seed, t), "world": world, "ops": ops, "tags": []})
     return out
 
 
